@@ -56,6 +56,7 @@ func (b *sb) probe(top int) {
 	b.add("probe %d", top)
 	b.add("spec probe %d", top)
 	b.add("inv %d", top)
+	b.add("refcheck")
 	for _, t := range b.txs {
 		b.add("details %s", hx(t.hash))
 		b.add("spec details %s", hx(t.hash))
@@ -361,7 +362,7 @@ func exhaustive() []core.Case {
 	rec = func(l *ledger, lines []string, top int32, branch int, depth int) {
 		if depth > 0 {
 			ops := append(append([]string{}, header...), lines...)
-			ops = append(ops, fmt.Sprintf("probe %d", top), fmt.Sprintf("spec probe %d", top), fmt.Sprintf("inv %d", top))
+			ops = append(ops, fmt.Sprintf("probe %d", top), fmt.Sprintf("spec probe %d", top), fmt.Sprintf("inv %d", top), "refcheck")
 			for _, t := range txs {
 				ops = append(ops, "details "+hx(t.hash), "spec details "+hx(t.hash))
 			}
